@@ -116,6 +116,8 @@ def handle (line : String) : String :=
     PipelineCatch.Wire.handlePIPEC version sm tr hr refl cs ar clock conv take gidx objs
   | ["PIPE", "catchcurve", version, sm, tr, hr, refl, cs, ar, clock, conv, take, gidx, objs] =>
     PipelineCatch.Wire.handlePIPECC version sm tr hr refl cs ar clock conv take gidx objs
+  | ["OSLDC", version, sm, tr, slider, expected, cps, ltt] =>
+    PipelineCatch.Wire.handleOSLDC version sm tr slider expected cps ltt
   | ["CURVE", mode, cps, expected, prev, progress] => Curve.Wire.handleCURVE mode cps expected prev progress
   | ["CURVES", mode, sliders, progress] => Curve.Wire.handleCURVES mode sliders progress
   | _ => "bad-op"
